@@ -3,6 +3,7 @@
 from __future__ import annotations
 
 import ast
+import copy
 import re
 import typing as t
 
@@ -402,6 +403,30 @@ class NotUnderstood(Exception):
     pass
 
 
+def _stmts_except(stmts: t.List[ast.stmt], skip: ast.AST) -> t.List[ast.stmt]:
+    """All simple statements of the blocks, without `skip` (compound statements are opened up)."""
+    out: t.List[ast.stmt] = []
+    for s_ in stmts:
+        if s_ is skip:
+            continue
+        subs = [getattr(s_, fld) for fld in ("body", "orelse", "finalbody") if isinstance(getattr(s_, fld, None), list)]
+        if isinstance(s_, ast.Try):
+            subs += [h.body for h in s_.handlers]
+        if subs and not isinstance(s_, (ast.FunctionDef, ast.AsyncFunctionDef, ast.ClassDef)):
+            hdr = copy.copy(s_)
+            for fld in ("body", "orelse", "finalbody"):
+                if isinstance(getattr(hdr, fld, None), list):
+                    setattr(hdr, fld, [])
+            if isinstance(hdr, ast.Try):
+                hdr.handlers = []
+            out.append(hdr)
+            for b_ in subs:
+                out += _stmts_except(b_, skip)
+        else:
+            out.append(s_)
+    return out
+
+
 def sid_pieces(repo: Repo, f: Func) -> t.Tuple[t.List[Piece], ast.AST]:
     """The byte string sid_to_bytes returns, as pieces in order.  Understands: x.to_bytes(w, order) / one-field struct.pack,
     bytes([a, b]), bytes(v) / bytearray(v), a + b, b''.join(list), list and byte accumulators grown by += / append / extend
@@ -452,10 +477,19 @@ def sid_pieces(repo: Repo, f: Func) -> t.Tuple[t.List[Piece], ast.AST]:
         if isinstance(e, ast.Call) and isinstance(e.func, ast.Attribute) and e.func.attr == "join" and len(e.args) == 1 and repo.try_fold(e.func.value, f.mod) == (True, b""):
             return of_list(e.args[0], at)
         if isinstance(e, ast.Name):
+            d = rd_.single_def(e.id, at)
+            if d is not None and d.kind == "assign" and d.index is None and d.value is not None and not mutations(list(f.node.body), e.id, skip=d.stmt):
+                return of(d.value, t.cast(ast.AST, d.stmt))  # a plain local holding a byte expression
             return accumulate(e.id, at, False)
         raise NotUnderstood(f"byte expression {unparse(e)[:50]}")
 
-    def mutations(stmts: t.List[ast.stmt], name: str) -> bool:
+    from sa.flow import ReachingDefs
+
+    rd_ = ReachingDefs(f)
+
+    def mutations(stmts: t.List[ast.stmt], name: str, skip: t.Optional[ast.AST] = None) -> bool:
+        if skip is not None:
+            return any(mutations([s_], name) for s_ in _stmts_except(stmts, skip))
         return any(isinstance(x, ast.Name) and x.id == name and isinstance(x.ctx, ast.Store) or isinstance(x, ast.Subscript) and isinstance(x.ctx, ast.Store) and unparse(x.value) == name or isinstance(x, ast.Call) and isinstance(x.func, ast.Attribute) and unparse(x.func.value) == name and x.func.attr in ("append", "extend", "insert", "pop", "reverse", "clear", "remove", "sort") for s_ in stmts for x in ast.walk(s_))
 
     def step(s_: ast.stmt, name: str, is_list: bool, cur: t.List[Piece]) -> t.Optional[t.List[Piece]]:
